@@ -119,9 +119,6 @@ func mkPhi(v ssa.Value, alts ...*Term) *Term {
 	for _, a := range alts {
 		flat(a)
 	}
-	if len(seen) > 1 {
-		delete(seen, "rec") // a pure self reference adds nothing
-	}
 	keys := make([]string, 0, len(seen))
 	for k := range seen {
 		keys = append(keys, k)
@@ -610,7 +607,7 @@ func (tm *Terms) Of(fr *Frame, v ssa.Value) *Term {
 		return t
 	}
 	if tm.busy[k] {
-		return mk("rec", "", v)
+		return mk("rec", v.Name(), v) // cyclic reference: the value of v from the previous iteration
 	}
 	tm.busy[k] = true
 	t := tm.build(fr, v)
@@ -772,8 +769,14 @@ func (tm *Terms) build(fr *Frame, v ssa.Value) *Term {
 		return mk("binop", x.Op.String(), v, tm.Of(fr, x.X), tm.Of(fr, x.Y))
 	case *ssa.Phi:
 		var alts []*Term
+		self := mk("rec", x.Name(), x).Key()
 		for _, e := range x.Edges {
-			alts = append(alts, tm.Of(fr, e))
+			if a := tm.Of(fr, e); a.Key() != self {
+				alts = append(alts, a) // phi(self, X) = X
+			}
+		}
+		if len(alts) == 0 {
+			return mk("rec", x.Name(), x)
 		}
 		return mkPhi(v, alts...)
 	case *ssa.Extract:
@@ -1004,7 +1007,7 @@ func (tm *Terms) snapshot(fr *Frame, a *ssa.Alloc, path []string, at ssa.Instruc
 		if t := tm.memo[k]; t != nil {
 			cell = t
 		} else if tm.busy[k] {
-			cell = mk("rec", "", a)
+			cell = mk("rec", a.Name(), a)
 		} else {
 			tm.busy[k] = true
 			var alts []*Term
@@ -1183,7 +1186,7 @@ func (tm *Terms) call(fr *Frame, c *ssa.Call) *Term {
 func dirty(t *Term) bool {
 	return t.Any(func(x *Term) bool {
 		switch x.Op {
-		case "allocref", "cellref", "cell", "unknown", "rec", "havoc", "free":
+		case "allocref", "cellref", "cell", "unknown", "havoc", "free":
 			return true
 		}
 		return false
